@@ -46,6 +46,10 @@ def run(idx, rep, tier):
     c08.copies(idx, rep, "R3")
     r4(idx, rep)
     r5(idx, rep)
+    rep.rule("R6", "a named file resolves by what was registered last, whatever was registered before (C11 store sequences)")
+    from . import c11
+    n, msg = c11.run_sequences(idx, 3)
+    rep.check(msg is None, "R6", "csvpath/managers/files/file_manager.py::named-file resolution is history independent", msg or f"{n} operation sequences", "csvpath/managers/files/file_manager.py")
     rep.stats["exhaustive"] = True
 
 
@@ -172,7 +176,15 @@ def r2(idx, rep):
     cr = idx.method("Cache", "cached_text")
     rep.analysed(fw, fr, cw, cr, idx.method("Cache", "_cache_name"))
     header_sets = [["a", "b", "c"], ['"q', "b c", 'x"y'], ["first, last", "x"], [" lead", "trail ", ""], ["multi\nline", "z"], ["'single'", ";semi", "|pipe"], ['"id" no', "n"], ["ü", "日本"]]
-    stdlib = {"io.StringIO": lambda i, c, r, a, k: io.StringIO(*a), "csv.writer": lambda i, c, r, a, k: csv.writer(*a, **k), "csv.reader": lambda i, c, r, a, k: csv.reader(*a, **k),
+    def _safe(fn):
+        def h(i, c, r, a, k):
+            try:
+                return fn(*a, **k)
+            except Exception as ex:  # pylint: disable=W0718
+                raise Raised(type(ex).__name__)
+        return h
+
+    stdlib = {"io.StringIO": lambda i, c, r, a, k: io.StringIO(*a), "csv.writer": _safe(csv.writer), "csv.reader": _safe(csv.reader),
               "hashlib.sha256": lambda i, c, r, a, k: hashlib.sha256(*a), "os.path.join": lambda i, c, r, a, k: "/".join(a),
               "os.path.basename": lambda i, c, r, a, k: a[0].rpartition("/")[2]}
     bad = None
@@ -189,7 +201,8 @@ def r2(idx, rep):
 
         it = Interp(idx, types={"self": "FileCacher", "self.cache": "Cache"}, inline={"Cache.cache_text", "Cache.cached_text", "Cache._cache_name", "FileCacher._cache_lines_and_headers"},
                     handlers=dict(h, **{"self.cache._cachedir": lambda i, c, r, a, k: "CACHE"}), unknown_calls="residual")
-        ps = it.run_program(program, {})
+        # the owner runs with a non-default dialect: the cache must round-trip whatever the run's delimiter/quotechar are
+        ps = it.run_program(program, {"self.csvpaths.delimiter": ";", "self.csvpaths.quotechar": "'", "self.cache.csvpaths.delimiter": ";", "self.cache.csvpaths.quotechar": "'"})
         if len(ps) != 1 or ps[0].result[0] != "return":
             bad = bad or f"headers {hs}: {[p.result for p in ps]}"
             continue
@@ -238,6 +251,7 @@ def r2(idx, rep):
     # the cached monitor is the one dumped: json via lm.dump / lm.load
     wrote = {}
     _, ps = K.sym_result(idx, "FileCacher", "_cache_lines_and_headers", args={"__pos__": ["f.csv", Obj("lm"), ["a"]]},
+                         store={"self.csvpaths.delimiter": ";", "self.csvpaths.quotechar": "'"},
                          handlers={"lm.dump": lambda i, c, r, a, k: "DUMP", "self.cache.cache_text": lambda i, c, r, a, k: wrote.__setitem__(a[1], a[2]),
                                    "io.StringIO": lambda i, c, r, a, k: io.StringIO(), "csv.writer": lambda i, c, r, a, k: csv.writer(*a, **k)})
     loaded = []
